@@ -81,6 +81,28 @@ def mentions_ref_to_generic(t, g):
     return False
 
 
+def holds_by_value(t, names):
+    """does a value of this type contain (own, or reach through `&mut`) a value of one of the named types; shared
+    references, raw pointers, generics and associated types do not count"""
+    if not isinstance(t, dict):
+        return False
+    if "resolved_path" in t:
+        rp = t["resolved_path"]
+        if rp["path"].split("::")[-1] in names:
+            return True
+        args = (rp.get("args") or {}).get("angle_bracketed", {}).get("args", [])
+        return any(holds_by_value(a.get("type"), names) for a in args if isinstance(a, dict))
+    if "borrowed_ref" in t:
+        return t["borrowed_ref"]["is_mutable"] and holds_by_value(t["borrowed_ref"]["type"], names)
+    if "tuple" in t:
+        return any(holds_by_value(x, names) for x in t["tuple"])
+    if "slice" in t:
+        return holds_by_value(t["slice"], names)
+    if "array" in t:
+        return holds_by_value(t["array"]["type"], names)
+    return False
+
+
 def by_value_named(t, name):
     """parameter type is exactly the named path (not behind a reference)"""
     return isinstance(t, dict) and "resolved_path" in t and t["resolved_path"]["path"].split("::")[-1] == name
@@ -105,57 +127,91 @@ def generate():
     nonkey_public_fields = []
     keyable_impls, ownedlockable_ref = [], False
     ol_impls = []
-    struct_ids = {}
-    for k, v in idx.items():
-        if v.get("name") in TYPES and "struct" in v["inner"] and v["visibility"] == "public":
-            struct_ids[v["name"]] = v
-    for name in TYPES:
-        v = struct_ids.get(name)
+    def field_types(v):
+        inner = v["inner"]
+        ids = []
+        if "struct" in inner:
+            kind = inner["struct"]["kind"]
+            if isinstance(kind, dict) and "plain" in kind:
+                ids = kind["plain"]["fields"]
+            elif isinstance(kind, dict) and "tuple" in kind:
+                ids = [f for f in kind["tuple"] if f is not None]
+        elif "enum" in inner:
+            for vid in inner["enum"]["variants"]:
+                kd = item(vid)["inner"]["variant"]["kind"]
+                if isinstance(kd, dict) and "tuple" in kd:
+                    ids += [f for f in kd["tuple"] if f is not None]
+                elif isinstance(kd, dict) and "struct" in kd:
+                    ids += kd["struct"]["fields"]
+        elif "union" in inner:
+            ids = inner["union"]["fields"]
+        return [(item(f), item(f)["inner"]["struct_field"]) for f in ids]
+
+    def adt(v):
+        inner = v["inner"]
+        return inner.get("struct") or inner.get("enum") or inner.get("union")
+
+    # every public struct / enum / union of the crate that owns a ThreadKey (a field, a variant's field, at any depth
+    # through types that own one): the key's carriers, whatever they are called
+    adts = {v["name"]: v for v in idx.values()
+            if v.get("crate_id") == 0 and v.get("visibility") == "public" and v.get("name") and adt(v) is not None}
+    key_holders = {"ThreadKey"}
+    grew = True
+    while grew:
+        grew = False
+        for n, v in adts.items():
+            if n not in key_holders and any(holds_by_value(t, key_holders) for _, t in field_types(v)):
+                key_holders.add(n)
+                grew = True
+    holder_rules = []
+
+    def auto_rule(name, tname, im):
+        bs = []
+        for p in im["generics"]["params"]:
+            kd = p["kind"]
+            if "type" in kd:
+                for b in bound_names(kd["type"]["bounds"]):
+                    if b in ("Send", "Sync"):
+                        bs.append(("BRaw" if p["name"] == "R" else "BParam", b))
+        for w in im["generics"]["where_predicates"]:
+            if "bound_predicate" in w:
+                bp = w["bound_predicate"]
+                ty = bp["type"]
+                for b in bound_names(bp["bounds"]):
+                    if b not in ("Send", "Sync"):
+                        continue
+                    if "generic" in ty:
+                        bs.append(("BRaw" if ty["generic"] == "R" else "BParam", b))
+                    elif "qualified_path" in ty and ty["qualified_path"]["name"] == "GuardMarker":
+                        bs.append(("BGuardMarker", b))
+                    else:
+                        bs.append(("BOther", b))
+        return (name, tname, im["is_negative"], im["is_synthetic"], bs)
+
+    for name in TYPES + sorted(key_holders - set(TYPES)):
+        v = adts.get(name)
         if v is None:
             continue
-        st = v["inner"]["struct"]
-        kind = st["kind"]
-        fields = kind.get("plain", {}).get("fields", []) if "plain" in kind else [f for f in kind.get("tuple", []) if f is not None]
-        for f in fields:
-            fi = item(f)
-            if fi["visibility"] == "public":
+        extra = name not in TYPES           # a key holder outside the fixed list: auto-trait rules and trait impls only
+        for fi, _ in field_types(v):
+            if fi["visibility"] == "public" and "struct" in v["inner"]:
                 if name == "ThreadKey":
                     key_public_field = True
                 else:
                     nonkey_public_fields.append(f"{name}.{fi['name']}")
-        for imp in st["impls"]:
+        for imp in adt(v)["impls"]:
             im = item(imp)["inner"]["impl"]
             tr = im.get("trait")
             if tr is None:
                 # inherent impl: functions
                 for fid in im["items"]:
                     fitem = item(fid)
-                    if "function" in fitem["inner"]:
+                    if "function" in fitem["inner"] and not extra:
                         fns.append(fn_row(name, fitem, im))
                 continue
             tname = tr["path"].split("::")[-1]
             if tname in ("Send", "Sync"):
-                bs = []
-                for p in im["generics"]["params"]:
-                    kd = p["kind"]
-                    if "type" in kd:
-                        for b in bound_names(kd["type"]["bounds"]):
-                            if b in ("Send", "Sync"):
-                                bs.append(("BRaw" if p["name"] == "R" else "BParam", b))
-                for w in im["generics"]["where_predicates"]:
-                    if "bound_predicate" in w:
-                        bp = w["bound_predicate"]
-                        ty = bp["type"]
-                        for b in bound_names(bp["bounds"]):
-                            if b not in ("Send", "Sync"):
-                                continue
-                            if "generic" in ty:
-                                bs.append(("BRaw" if ty["generic"] == "R" else "BParam", b))
-                            elif "qualified_path" in ty and ty["qualified_path"]["name"] == "GuardMarker":
-                                bs.append(("BGuardMarker", b))
-                            else:
-                                bs.append(("BOther", b))
-                rules.append((name, tname, im["is_negative"], im["is_synthetic"], bs))
+                (holder_rules if extra else rules).append(auto_rule(name, tname, im))
             elif tname in TRAITS and im.get("blanket_impl") is None:
                 # for IntoIterator distinguish the impl for a shared reference
                 forty = im["for"]
@@ -163,7 +219,7 @@ def generate():
                 timpls.append((name, tname + ("&" if shared else "")))
                 for fid in im["items"]:
                     fitem = item(fid)
-                    if "function" in fitem["inner"]:
+                    if "function" in fitem["inner"] and not extra:
                         fns.append(fn_row(name, fitem, im, trait=tname))
     # IntoIterator for &Type is an impl "for &Type": search all impls
     for k, v in idx.items():
@@ -241,7 +297,7 @@ def generate():
                     if sup is not None and sup.get("name") == "Sealed":
                         sealed = not all_public(idx, j, sid)
     return render(rules, timpls, fns, key_public_field, nonkey_public_fields, sorted(set(keyable_impls)), sealed,
-                  ownedlockable_ref, sorted(set(ol_impls))), log
+                  ownedlockable_ref, sorted(set(ol_impls)), sorted(key_holders), holder_rules), log
 
 
 def all_public(idx, j, sid):
@@ -329,7 +385,8 @@ def cb(b):
     return "true" if b else "false"
 
 
-def render(rules, timpls, fns, key_public_field, nonkey_public_fields, keyable_impls, sealed, ownedlockable_ref, ol_impls):
+def render(rules, timpls, fns, key_public_field, nonkey_public_fields, keyable_impls, sealed, ownedlockable_ref, ol_impls,
+           key_holders, holder_rules):
     o = ["(* GENERATED by tools/apitable.py from the rustdoc JSON of /repo's working tree — do not edit. *)",
          "From Coq Require Import List String Bool.", "Import ListNotations.", "Open Scope string_scope.", "",
          "Inductive marker := MSend | MSync.",
@@ -344,6 +401,13 @@ def render(rules, timpls, fns, key_public_field, nonkey_public_fields, keyable_i
         bl = "; ".join(f"{k} M{b}" for k, b in bs)
         rl.append(f'  mkrule "{name}" M{tr} {cb(neg)} {cb(syn)} [{bl}]')
     o.append(";\n".join(rl))
+    o.append("].\n")
+    o.append("(* every public struct / enum of the crate that owns a ThreadKey (computed from the field types, private fields included) *)")
+    o.append("Definition key_holders : list string := [" + "; ".join(f'"{x}"' for x in key_holders) + "].")
+    o.append("(* Send / Sync impls of the key holders that are not in the fixed list of types above *)")
+    o.append("Definition holder_rules : list autorule := [")
+    o.append(";\n".join(f'  mkrule "{name}" M{tr} {cb(neg)} {cb(syn)} [{"; ".join(f"{k} M{b}" for k, b in bs)}]'
+                         for name, tr, neg, syn, bs in sorted(holder_rules)))
     o.append("].\n")
     o.append("Definition trait_impls : list (string * string) := [")
     o.append(";\n".join(f'  ("{a}", "{b}")' for a, b in sorted(set(timpls))))
